@@ -87,3 +87,6 @@ func VerifSmokeErrors() {
 	w2 := errors.WithMessage(e2, "ctx")
 	rt.Assert("smoke.errors.cause", errors.Cause(w2) == e2)
 }
+
+// VerifSmokeEmpty measures the fixed cost of a path.
+func VerifSmokeEmpty() {}
